@@ -10,23 +10,37 @@ NEEDS_HOOKS = False
 TRUSTED_BASE = [
     'Lean 4.33.0 kernel; axioms admitted: propext, Classical.choice, Quot.sound (audited per theorem on every run)',
     'translator tools/extract/consteval.py + clang-14 typed AST: Gen/ConstEvalGen.lean is regenerated from parse.c '
-    '(eval, eval2, eval3, eval_truth, is_const_expr, const_expr, write_buf, every consumer of a folded constant), type.c '
-    '(is_integer, is_flonum) and chibicc.h on every run; eval3 and eval_truth are inlined into eval2 so that recursion is structural',
+    '(eval, eval2, eval3, eval_truth, eval_double, eval_double2, is_const_expr, const_expr, write_buf, write_gvar_data\'s scalar '
+    'stores, every consumer of a folded constant incl. the _Alignas/aligned validation), type.c (is_integer, is_flonum) and chibicc.h on '
+    'every run; eval3/eval_truth/eval_double/eval_double2 are inlined into two mutually recursive definitions eval2 / evalDouble so that '
+    'recursion is structural (a same-node call chain that re-enters a function becomes Fail.crash); the translator refuses an operator both '
+    'of whose operands call the folder (unspecified order of evaluation in C)',
     'Model/HostInt.lean: semantics of the host C operators the folder executes (int64_t/uint64_t arithmetic). The theorems about '
     'values are stated for HostMode.wrapping (signed overflow of the host wraps: gcc -O0 / x86-64, what the shipped binary does); '
     'in HostMode.strict (C11 abstract machine for the host) the folder is shown to reach host-undefined signed overflow on '
     'C11-defined unsigned long expressions (Findings/C07.lean)',
-    'Spec/ConstSpec.lean (my reading of C11 6.3.1, 6.5, 6.6; gcc/psABI choices for implementation-defined points), validated '
-    'against gcc 12 on every generated program',
-    'Model/ConstElab.lean: hand model of the tree parse.c + add_type build for a constant expression; tied differentially: the value '
-    'the real compiler folds for each generated expression is compared with Gen.eval2 (elabE e)',
-    'floating constant expressions (eval_double) are abstract in Lean (FpEnv); they are checked only differentially: '
-    'constant context vs run time vs gcc',
-    'address constants (&x, labels, members) are outside the integer model (Fail.unmodelled); their arms are pinned by source text',
+    'Model/HostFp.lean + Model/HostFpX86.lean: the host floating operations of the folder are the fields of HostFp; HostFp.ofOps is the '
+    'assumption that the compiler was compiled for x86-64 with FLT_EVAL_METHOD 0 (SSE for float/double, x87 for long double, one '
+    'instruction per C operation, conversions to int64_t/uint64_t deliver the integral part when C11 defines it)',
+    'C07_fold_float is relative to C07Float.Sound (Lemmas/C07FloatLemmas.lean): FpuSpec\'s contracts (widening exact, fild of a 64-bit '
+    'integer exact, fchs = sign bit) plus the narrowing contracts FpuSpec leaves open (fst rounds once and consistently with '
+    'cvtsi2ss/sd, cvtsd2ss, cvtss2sd; no instruction manufactures a datum that does not survive widening and narrowing); satisfiable '
+    '(toy FPU, Lemmas/C07FloatToy.lean).  The real FPU is not proved to meet them: Model/SoftFp.lean (software binary32/binary64/x87 '
+    'arithmetic, round to nearest even) is what the driver runs, and it is compared bit for bit with the snapshot binary, the compiled '
+    'program and gcc on every run',
+    'Spec/ConstSpec.lean and Spec/ConstFSpec.lean (my reading of C11 6.3.1, 6.4.4.2, 6.5, 6.6, F.3; gcc/psABI choices for '
+    'implementation-defined points; FLT_EVAL_METHOD 0), validated against gcc 12 on every generated program',
+    'Model/ConstElab.lean, Model/ConstElabF.lean: hand models of the tree parse.c + add_type build for a constant expression; tied '
+    'differentially: the value / the bits the real compiler folds for each generated expression are compared with Gen.eval2 / '
+    'Gen.evalDouble over (elabE e / elabA e)',
+    'address constants (&x, labels, members) are outside the model (Fail.unmodelled); their arms are pinned by source text; the '
+    'bit-field path of write_gvar_data is covered by the consumer table only',
 ]
 ASSUMPTIONS = ['nodes handed to the folder are typed (add_type is idempotent on typed nodes)',
-               'gcc 12 -O0 evaluates C11-defined integer expressions as C11 says (oracle for the Spec)',
-               'the host compiler that builds chibicc wraps on signed overflow (checked by running the snapshot binary)']
+               'gcc 12 -O0 evaluates C11-defined arithmetic expressions as C11 says (oracle for the Spec), with FLT_EVAL_METHOD 0',
+               'the host compiler that builds chibicc wraps on signed overflow and computes float/double in SSE, long double in x87 '
+               '(checked by running the snapshot binary against the model on every run)',
+               'the compiler and the compiled program run under the same x87 control word (the default 0x37f)']
 
 M64 = (1 << 64)
 
@@ -957,6 +971,23 @@ def FL(text):
     return ('flit', t, fpb.literal_fval(fpb.frac_of(body), t), text)
 
 
+DOUBLE_ROUNDING = [('1.0', '0x1.002p-53'), ('0x1.0000000000001p0', '0x1.ffep-54'), ('0x1.fffffffffffffp0', '0x1.0000000000001p0'),
+                   ('1.0', '0x1.000002p-24'), ('0x1.000001p0', '0x1.000001p0'), ('1.0', '0x1.8p-53')]
+
+
+def float_core():
+    """always run: operand pairs whose exact result rounds differently to double directly and through the x87 significand (or to
+    float through double), every arithmetic operator, in each format"""
+    out = []
+    for a, b in DOUBLE_ROUNDING:
+        for sfx in ('', 'f', 'L'):
+            for op in ('add', 'sub', 'mul', 'div'):
+                out.append(('bin', op, FL(a + sfx), FL(b + sfx)))
+    out += [('cast', 'u64', FL('1.8e19')), ('cast', 'u64', FL('1.8e19f')), ('cast', 'u64', FL('1.8e19L')),
+            ('cast', 'u64', FL('9223372036854775808.0')), FL('1.8e19'), FL('9223372036854775808.0'), ('bin', 'add', FL('1.8e19'), L(0))]
+    return out
+
+
 def float_battery():
     """deterministic: every conversion pair on boundary values, every operator at every floating type"""
     out = []
@@ -976,7 +1007,9 @@ def float_battery():
             out.append(('cast', t, i))
             out.append(('bin', 'add', i, FL('0.0' + FSUFFIX[t])))
     pairs = [('0.1', '0.2'), ('1.0', '3.0'), ('16777216.0', '1.0'), ('1e300', '1e300'), ('1e-300', '1e-300'), ('0.0', '0.0'), ('1.0', '0.0'),
-             ('3.4028235e38', '3.4028235e38'), ('1e-40', '3.0'), ('0.5', '0.7'), ('2.5', '2.5')]
+             ('3.4028235e38', '3.4028235e38'), ('1e-40', '3.0'), ('0.5', '0.7'), ('2.5', '2.5'),
+             ] + DOUBLE_ROUNDING
+    pairs = [p for p in pairs if p]
     for a, b in pairs:
         for sa in ('f', '', 'L'):
             for sb in ('f', '', 'L'):
@@ -1025,7 +1058,8 @@ def floating_model(ctx, corr):
     rng = ctx.rng
     batt = float_battery()
     if not ctx.thorough:
-        batt = rng.sample(batt, 200)
+        batt = rng.sample(batt, 160)
+    batt = float_core() + batt
     n = 200 if not ctx.thorough else 5000
     exprs = batt + [gen_aexpr(rng, rng.choice([2, 3, 3, 4, 4, 5])) for _ in range(n)]
     exprs = [e for e in exprs if has_float(e)]
@@ -1168,11 +1202,122 @@ def float_batch(ctx, corr, cases, tag):
     return True
 
 
+def float_impl_only(ctx, e, t):
+    """replay without the model: constant-context bits vs run-time bits of the snapshot binary"""
+    t = t or atype(e)
+    lits = alits(e, [])
+    names, decls = {}, []
+    for j, lit in enumerate(lits):
+        names[id(lit)] = f'w{j}'
+        decls.append(f'volatile {acname(lit[1])} w{j} = {lit[3]};')
+    T = acname(t)
+    src = ('int printf(const char *, ...);\nvoid *memcpy(void *, const void *, unsigned long);\n'
+           'static void pb(const char *c, const void *p, int n) { unsigned char b[16] = {0}; memcpy(b, p, n); printf("%s ", c); '
+           'for (int i = n - 1; i >= 0; i--) printf("%02x", b[i]); printf("\\n"); }\n'
+           f'static {T} fc = {arender(e, "const")};\nstatic {T} fr(void) {{ {" ".join(decls)} return {arender(e, "rt", names)}; }}\n'
+           f'int main(void) {{ pb("c", &fc, {nbytes(t)}); {T} r = fr(); pb("r", &r, {nbytes(t)}); return 0; }}\n')
+    path = os.path.join(ctx.scratch, 'c07_freplay.c')
+    open(path, 'w').write(src)
+    exe = os.path.join(ctx.scratch, 'c07_freplay.exe')
+    rc, o, err = sh([ctx.cc, '-o', exe, path], timeout=60)
+    if rc != 0:
+        return [{'what': 'chibicc rejects the replayed arithmetic constant expression', 'input': arender(e, 'const'), 'expected': 'compiles', 'got': err[-300:]}]
+    rc, o, err = sh([exe], timeout=20)
+    d = dict(l.split() for l in o.splitlines() if len(l.split()) == 2)
+    if d.get('c') != d.get('r'):
+        return [fviolation(e, t, d.get('r'), d.get('c'), None)]
+    return []
+
+
 def fviolation(e, t, cr, cc_, gc):
     return {'what': f'arithmetic constant expression with floating operands: the value folded into a static {acname(t)} object differs from '
                     'run-time evaluation of the same expression', 'input': f'static {acname(t)} x = {arender(e, "const")};',
             'expected': f'run time {cr} (gcc {gc})', 'got': cc_, 'sexpr': asexpr(e), 'object': t, 'replay_kind': 'fmodel',
             'replay_fexpr': json.dumps(e), 'replay_obj': t}
+
+
+# ------------------------------------------------------------------------------------------------------ order of evaluation
+# C07_fold_order: in every binary arm the LEFT operand of the node is folded first, so of two non-constant operands the left
+# one is diagnosed.  Each probe puts the two operands on different lines; `a > b` is parsed as `b < a` (node order).
+
+ORDER_OPS = ['+', '-', '*', '/', '%', '&', '|', '^', '<<', '>>', '==', '!=', '<', '<=', '>', '>=']
+
+
+def order_programs():
+    out = []
+    for op in ORDER_OPS:
+        swapped = op in ('>', '>=')
+        out.append((f'int {op}', f'int a, b;\nenum {{ E = (\na\n){op}(\nb\n) }};\n', 5 if swapped else 3))
+        out.append((f'int-init {op}', f'int a, b;\nstatic long x = (\na\n){op}(\nb\n);\n', 5 if swapped else 3))
+        if op in ('+', '-', '*', '/', '==', '!=', '<', '<=', '>', '>='):
+            out.append((f'double {op}', f'double a, b;\nstatic double x = (\na\n){op}(\nb\n);\n', 5 if swapped else 3))
+            out.append((f'mixed {op}', f'double a; int b;\nstatic long x = (\na\n){op}(\nb\n);\n', 5 if swapped else 3))
+    return out
+
+
+def order_leg(ctx, corr, cc=None, record=True):
+    """returns the first violation dict or None"""
+    cc = cc or ctx.cc
+    for i, (name, src, want) in enumerate(order_programs()):
+        path = os.path.join(ctx.scratch, f'order_{i}.c')
+        open(path, 'w').write(src)
+        rc, o, e = sh([cc, '-cc1', '-cc1-input', path, '-cc1-output', '/dev/null', path], timeout=20)
+        if record:
+            corr.evaluations += 1
+            corr.count('order-' + name.split()[0])
+            corr.nontrivial.add('order:' + name)
+        m = re.search(re.escape(os.path.basename(path)) + r':(\d+): ', e)
+        if rc != 1 or not m or int(m.group(1)) != want:
+            return {'what': 'two non-constant operands of a binary operator: the diagnostic is not the left operand\'s (the order of '
+                            'evaluation of the folder is left to right in the model, C07_fold_order)', 'input': src, 'operator': name,
+                    'expected': f'exit 1, diagnostic at line {want}', 'got': f'rc={rc} {e.strip()[-200:]!r}', 'replay_kind': 'order'}
+    return None
+
+
+# ------------------------------------------------------------------------------------------------------ alignment consumers
+
+def align_leg(ctx, corr):
+    """_Alignas(n) / aligned(n): the model's validated store (Gen.store_declspec_align / store_attribute_list_ty_align) against
+    the real compiler: rejected values are diagnosed, accepted ones take effect as the alignment"""
+    vals = [0, 1, 2, 3, 4, 6, 8, 16, 24, 64, 4096, 1 << 20, 1 << 28, (1 << 28) + 1, 1 << 29, 1 << 31, 1 << 32, (1 << 32) + 16, -1, -8,
+            (1 << 63) - 1]
+    sites = [('declspec', 'align', 'int printf(const char *, ...);\nstruct S { char a; _Alignas(%s) char c; };\n'
+              'int main(void) { printf("%%ld\\n", (long)_Alignof(struct S)); return 0; }\n'),
+             ('attribute_list', 'ty->align', 'int printf(const char *, ...);\nstruct __attribute__((aligned(%s))) S { char c; };\n'
+              'int main(void) { printf("%%ld\\n", (long)_Alignof(struct S)); return 0; }\n')]
+    lines = ''.join(f'store {f} {d} {v}\n' for f, d, _ in sites for v in vals)
+    out = run_model(ctx, corr, lines).splitlines()
+    k = 0
+    for f, d, tmpl in sites:
+        for v in vals:
+            m = out[k]; k += 1
+            lit = f'({v}L)' if v >= 0 else f'(-{-v}L)'
+            eff = v if v > 0 else 1
+            src = tmpl % lit
+            path = os.path.join(ctx.scratch, f'align_{k}.c')
+            open(path, 'w').write(src)
+            exe = os.path.join(ctx.scratch, f'align_{k}.exe')
+            rc, o, e = sh([ctx.cc, '-o', exe, path], timeout=30)
+            if rc == 0:
+                rc2, o2, e2 = sh([exe], timeout=20)
+                if rc2 != 0 or o2.strip() != str(eff):
+                    corr.disagreements.append({'kind': 'alignment consumer: the alignment that took effect is not the folded value', 'input': src,
+                                               'model': m, 'impl': f'rc={rc2} _Alignof={o2.strip()!r}'})
+                    return False
+            corr.evaluations += 1
+            corr.count('align-' + f)
+            corr.nontrivial.add(f'align:{f}:{v}')
+            accepted_model = not m.startswith('diag:')
+            if accepted_model and m != str(v):
+                corr.disagreements.append({'kind': 'alignment store (model) does not keep the value', 'input': src, 'model': m})
+                return False
+            accepted_impl = rc == 0
+            diagnosed = rc == 1 and 'alignment must be a power of two' in e
+            if accepted_model != accepted_impl or (not accepted_model and not diagnosed):
+                corr.disagreements.append({'kind': 'alignment consumer: model and compiler disagree on acceptance / the stored alignment',
+                                           'input': src, 'model': m, 'impl': f'rc={rc} {e.strip()[-160:]!r}'})
+                return False
+    return True
 
 
 # ------------------------------------------------------------------------------------------------------ corpus
@@ -1240,13 +1385,25 @@ def correspond(ctx, corr):
                  '_Alignas, array designator, #if) and as run-time code over volatile operands in one program, compiled by the '
                  'snapshot chibicc and by gcc and run; required: constant-context value = run-time value = Gen.eval2(elabE e) + consumer '
                  'conversion (drv_c07) = Spec = gcc.  non-trivial = depth >= 2 (at least one operator or cast); distinct = by expression.  '
-                 'Plus division by zero in every context through cc1 directly (diagnostic, exit 1, no signal) and floating / mixed '
-                 'constant expressions: folded bits = run-time bits (= gcc) as float, double, long double and long.')
+                 'Plus division by zero in every context through cc1 directly (diagnostic, exit 1, no signal); floating / mixed '
+                 'constant expressions as C text: folded bits = run-time bits (= gcc) as float, double, long double and long; structured '
+                 'arithmetic constant expressions with floating operands (typed random trees + a deterministic conversion/operator battery '
+                 'on boundary values; expressions without a C11 value are dropped and counted skipped_ub): for static objects of type float, '
+                 'double, long double, long and a random integer type: bits folded by chibicc = Gen.evalDouble/Gen.eval2(elabA e) + '
+                 'write_gvar_data model on the software FPU (drv_c07 fgvar) = run-time bits = Spec/ConstFSpec (drv_c07 feval) = gcc; the '
+                 'diagnostic of two non-constant operands is the left operand\'s for every binary operator (C07_fold_order); '
+                 '_Alignas(n)/aligned(n) acceptance and effect = the validated store of the model.')
     if not corpus(ctx, corr):
         return
     if not malformed(ctx, corr):
         return
     if not unevaluated_cond(ctx, corr):
+        return
+    v = order_leg(ctx, corr)
+    if v:
+        corr.violations.append(v)
+        return
+    if not align_leg(ctx, corr):
         return
     rng = ctx.rng
     batt = boundary_battery()
@@ -1295,6 +1452,22 @@ def search(ctx, broken, corr):
     rng = ctx.rng
     if not malformed(ctx, sub) and sub.violations:
         return sub.violations[0]
+    v = order_leg(ctx, sub, record=False)
+    if v:
+        return v
+    if any(b.get('kind') == 'translator' for b in broken):
+        # the folder's source no longer has a shape the translator accepts.  One reason: two operands are folded inside one
+        # expression again, whose order of evaluation is then the host compiler's.  The snapshot compiled by itself evaluates
+        # the operands of a binary operator right to left, gcc left to right: look at the stage-2 compiler as well.
+        stage2, err = build_stage2(ctx)
+        if stage2:
+            v = order_leg(ctx, sub, cc=stage2, record=False)
+            if v:
+                v['what'] += ' — observed on the stage-2 compiler (the snapshot compiled by itself); the gcc-built compiler diagnoses the other operand'
+                v['replay_kind'] = 'order2'
+                return v
+        else:
+            ctx.notes.append('stage-2 build failed: ' + err)
     for round_ in range(6):
         exprs = boundary_battery() if round_ == 0 else [gen_expr(rng, rng.choice([3, 4, 5, 6])) for _ in range(600)]
         for b0 in range(0, len(exprs), 200):
@@ -1309,7 +1482,35 @@ def search(ctx, broken, corr):
             if sub.violations:
                 return sub.violations[0]
     floating(ctx, sub)
+    if not sub.violations:
+        try:
+            floating_model(ctx, sub)
+        except (RuntimeError, ModelBuildFailure):
+            pass
     return sub.violations[0] if sub.violations else None
+
+
+STAGE_SRC = ['main.c', 'tokenize.c', 'preprocess.c', 'parse.c', 'type.c', 'codegen.c', 'hashmap.c', 'strings.c', 'unicode.c']
+
+
+def build_stage2(ctx):
+    """the snapshot's sources compiled by the snapshot's own binary"""
+    d = os.path.join(ctx.scratch, 'c07_stage2')
+    os.makedirs(d, exist_ok=True)
+    objs = []
+    for s in STAGE_SRC:
+        o = os.path.join(d, s[:-2] + '.o')
+        rc, out, e = sh([ctx.cc, '-c', '-o', o, s], cwd=ctx.snapshot, timeout=600)
+        if rc != 0:
+            return None, f'{s}: rc={rc} {e[-300:]}'
+        objs.append(o)
+    exe = os.path.join(d, 'chibicc')
+    rc, out, e = sh(['cc', '-o', exe] + objs, timeout=300)
+    if rc != 0:
+        return None, f'link: {e[-300:]}'
+    if not os.path.exists(os.path.join(d, 'include')):
+        os.symlink(os.path.join(ctx.snapshot, 'include'), os.path.join(d, 'include'))
+    return exe, ''
 
 
 def impl_only(ctx, cases, tag):
@@ -1362,6 +1563,29 @@ def replay(ctx, corr, path):
         if bad:
             corr.violations.append(dict(payload, got=f'rc={rc} {e[-200:]}'))
         return
+    if kind in ('order', 'order2'):
+        cc = ctx.cc
+        if kind == 'order2':
+            cc, err = build_stage2(ctx)
+            if cc is None:
+                raise RuntimeError('stage-2 build failed: ' + err)
+        v = order_leg(ctx, Corr(), cc=cc, record=False)
+        print('replay:', (v['what'][:120] + ' ' + v['got']) if v else 'the left operand is diagnosed for every operator')
+        if v:
+            corr.violations.append(v)
+        return
+    if kind == 'fmodel':
+        e = from_json(json.loads(payload['replay_fexpr']))
+        sub = Corr()
+        try:
+            float_batch(ctx, sub, [(0, e)], 'replay')
+            bad = sub.violations[:1]
+        except (RuntimeError, ModelBuildFailure):
+            bad = float_impl_only(ctx, e, payload.get('replay_obj'))
+        print('replay:', bad[0]['what'][:160] + ' expected ' + str(bad[0]['expected']) + ' got ' + str(bad[0]['got']) if bad
+              else 'the folded value equals run-time evaluation')
+        corr.violations += bad
+        return
     if kind == 'float':
         sub = Corr()
         s = payload['input']
@@ -1390,22 +1614,29 @@ def replay(ctx, corr, path):
 
 
 MANIFEST = {
-    'level_text': 'Lean 4 theorems over the translated folder (Gen.eval2 = parse.c eval2/eval3/eval_truth with clang\'s host types, '
-                  'regenerated every run): C07_fold (every integer constant expression with a C11 value - all operators, casts to every '
-                  'integer type and _Bool, all depths, all operand values - folds to exactly that value, in range of its C11 type; '
-                  'structural induction, one BitVec lemma per operator arm), C07_undefined_diag (a zero divisor gives the diagnostic), '
-                  'C07_no_trap (on every tree, defined or not, folding ends in a value, a diagnostic or the host\'s undefined shift count: '
-                  'never SIGFPE/NULL), C07_division_total (MIN / -1 and x % -1 fold to the wrapped quotient / C remainder), '
-                  'C07_constness (is_const_expr accepts every 6.6p6 operator tree incl. % that has a value; unevaluated operands need none) and '
-                  'C07_constness_sound (accepted trees never yield "not a compile-time constant"), C07_consumers (enumerator, array bound, '
-                  'bit-field width, _Alignas, designator, case label, static initializer incl. _Bool store the C11 conversion). '
-                  'Tied by the translator and by a differential run: generated expressions in every constant context and as run-time code, '
-                  'chibicc = model = Spec = gcc.',
+    'level_text': 'Lean 4 theorems over the translated folder (Gen.eval2 / Gen.evalDouble = parse.c eval2/eval3/eval_truth/eval_double/'
+                  'eval_double2 with clang\'s host types, regenerated every run): C07_fold (every integer constant expression with a C11 '
+                  'value - all operators, casts to every integer type and _Bool, all depths, all operand values - folds to exactly that '
+                  'value, in range of its C11 type; structural induction, one BitVec lemma per operator arm), C07_fold_float (every '
+                  'arithmetic constant expression with floating operands - constants of float/double/long double, + - * /, unary - + !, '
+                  'comparisons, && || ?:, casts between all arithmetic types - folds to the value obtained by carrying out each operation '
+                  'once in the format of its type, and static float/double/long double/integer objects receive its C11 conversion; relative '
+                  'to the FPU contracts C07Float.Sound), C07_fold_order (every binary arm folds its left operand first: the left of two '
+                  'non-constant operands is diagnosed), C07_undefined_diag (a zero divisor gives the diagnostic), C07_no_trap (on every '
+                  'integer tree, defined or not, folding ends in a value, a diagnostic or the host\'s undefined shift count: never '
+                  'SIGFPE/NULL), C07_division_total (MIN / -1 and x % -1 fold to the wrapped quotient / C remainder), C07_constness '
+                  '(is_const_expr accepts every 6.6p6 operator tree incl. % that has a value; unevaluated operands need none) and '
+                  'C07_constness_sound (accepted trees of arithmetic type never yield "not a compile-time constant", through eval2 or '
+                  'eval_double), C07_consumers (enumerator, array bound, bit-field width, validated _Alignas/aligned, designator, case '
+                  'label, static initializer incl. _Bool store the C11 conversion). Tied by the translator and by differential runs: '
+                  'generated integer and floating expressions in every constant context and as run-time code, chibicc = model = Spec = gcc.',
     'level_note': 'Values are proved for the wrapping host (signed overflow of the host int64_t arithmetic wraps, as in the shipped binary); '
                   'Findings/C07.lean shows the strict-host reading reaches host-undefined overflow on defined unsigned long expressions. '
-                  'Floating constant folding is not modelled in Lean (differential only); address constants '
-                  'are outside the model; elabE (parser + add_type typing) is a hand model tied only differentially.',
-    'technique': 'Lean 4 structural induction over expression trees with one BitVec/Int lemma per operator arm; clang-AST translator; '
-                 'compile-and-run differential against gcc',
+                  'C07_fold_float is relative to the contracts C07Float.Sound on the FPU (a superset of the FpuSpec contracts it uses; '
+                  'satisfiable; validated on the CPU through the software FPU on every run, not proved of the silicon) and to the '
+                  'assumption that the compiler itself was compiled with FLT_EVAL_METHOD 0. Address constants are outside the model; '
+                  'elabE/elabA (parser + add_type typing) are hand models tied only differentially.',
+    'technique': 'Lean 4 structural induction over expression trees with one BitVec/Int lemma per operator arm and abstract FPU contracts; '
+                 'clang-AST translator (mutual structural recursion); compile-and-run differential against gcc and a software FPU',
     'design_ref': 'DESIGN.md section 6, C07',
 }
